@@ -28,7 +28,7 @@ def run(ctx):
     scns += [json.loads(l) for l in open(rp)]
     for n, d in enumerate(scns):
         d["id"] = n
-    obs = ctx.vh("server", ctx.write_ndjson("scenarios.ndjson", scns), ctx.path("observations.ndjson"), jobs=12, timeout_ms=20000)
+    obs = ctx.vh("server", ctx.write_ndjson("scenarios.ndjson", scns), ctx.path("observations.ndjson"), jobs=12, timeout_ms=90000)
     bad, CH = [], 1500
     for c in range(0, len(obs), CH):
         ev = []
